@@ -218,12 +218,20 @@ func (r *Reader) decodeG3ScanLine1D() {
 
 // decodeG3ScanLine2D decodes a Group 3 2D scanline (K > 0).
 func (r *Reader) decodeG3ScanLine2D() {
+	sawEOL := false
 	for r.err == nil && r.peekBits(11) == 0 {
 		r.consumeBits(11)
 		r.waitForOne() // allow for fill bits
+		sawEOL = true
 	}
 
 	tp := r.readBits(1)
+	if sawEOL && tp == 1 && !r.IgnoreEndOfBlock && r.peekBits(11) == 0 {
+		// EOL+1 directly followed by another EOL is the start of the RTC
+		// (six times EOL+1): the end of the data, not an empty 1D row.
+		r.err = io.EOF
+		return
+	}
 	if tp == 1 { // 1D mode
 		r.decodeG3ScanLine1D()
 	} else { // 2D mode
